@@ -162,6 +162,34 @@ def run(ctx):
     scenario("patch-via-match_incoming", lambda I: s_patch(I, "match_incoming"), "patch/exact")
     scenario("patch-via-save", lambda I: s_patch(I, "save"), "patch/exact")
 
+    def s_patch_all_fields(I):
+        s = fresh(I)
+        a = I.call(mi, [s], {"address": A, "auto_create": True})
+        b = I.call(mi, [s], {"address": B, "auto_create": True})
+        before_b = snapshot_obj(b)
+        fields = [k for k in a.attrs if k not in ("id", "logger", "__attrs", "address_in")]
+        syms = {k: AOpq(f"new {k}", notnone=True) for k in fields}
+        I.call(save, [s, a, dict(syms)], {})
+        wrong = [k for k in fields if a.attrs.get(k) is not syms[k]]
+        leaked = sorted(a.attrs.get("__attrs", {}).keys())
+        return not wrong and not leaked and snapshot_obj(b) == before_b, \
+            f"{len(fields)} built-in fields patched; not updated: {wrong}; stored as dynamic attributes instead: {leaked}", s
+    scenario("patch-every-builtin-field", s_patch_all_fields, "patch/exact")
+
+    def s_readdress(I):
+        s = fresh(I)
+        a = I.call(mi, [s], {"address": A, "auto_create": True})
+        C = ("10.7.7.7", 40007)
+        I.call(mi, [s], {"address": A, "patch": {"address_in": C}})
+        r_old = I.call(mi, [s], {"address": A})
+        r_new = I.call(mi, [s], {"address": C})
+        n1 = I.call(ln, [s], {})
+        a2 = I.call(mi, [s], {"address": A, "auto_create": True})
+        n2 = I.call(ln, [s], {})
+        return r_old is None and r_new is a and n1 == 1 and isinstance(a2, AObj) and a2 is not a and n2 == 2, \
+            f"after re-addressing: lookup(old) -> {'None' if r_old is None else 'a record'}, lookup(new) is the record: {r_new is a}, auto-create(old) makes a new record: {isinstance(a2, AObj) and a2 is not a}, len {n1} -> {n2}", s
+    scenario("patch-address-then-lookup", s_readdress, "lookup/identity")
+
     def s_patch_id(I):
         s = fresh(I)
         a = I.call(mi, [s], {"address": A, "auto_create": True})
